@@ -1,6 +1,7 @@
 package props
 
 import (
+	"verif/sa/internal/e1variants"
 	"verif/sa/internal/e8grammar"
 	"verif/sa/internal/load"
 	"verif/sa/internal/oblig"
@@ -23,6 +24,15 @@ func runC19(r *oblig.Report) {
 	w.R82(r)
 	q := w.R83(r, "go/lexer", "lexer")
 	q += w.R83(r, "go/parser", "parser")
+	w.R87(r)
+	// R1.5 needs the type-checked Go packages
+	if p, err := load.LoadPatterns(false, "./transformer", "./gen"); err != nil {
+		r.Unknown("load", "load:transformer+gen", "-", err.Error())
+	} else {
+		r.Rule("R1.5", "instance-table", "every Enter*/Exit* method of the Go listener overrides a method of the generated listener interface with an identical signature; SyntaxError overrides antlr.ErrorListener's; every grammar label is read; every operator alternative is consulted", 30)
+		e1variants.ListenerOverrides(p, r, "R1.5")
+		e1variants.GrammarCoverage(p, r, "R1.5", w.ParserG)
+	}
 	if r.Tier == "thorough" {
 		// quick compares the TS/Java/.interp copies as integer sequences (R8.1); thorough repeats the per-rule equivalence on each
 		for _, k := range []string{"ts", "java", "interp-go", "interp-js", "interp-java"} {
